@@ -124,6 +124,18 @@ func rulePU4() Rule {
 							if se, ok := r.(*ast.SliceExpr); ok {
 								r = ast.Unparen(se.X)
 							}
+							// a helper of the package that returns (a slice of) a field of the environment
+							if call, ok := r.(*ast.CallExpr); ok {
+								if tgt := c.returnsEnvField(info, call); tgt != "" {
+									o := info.Defs[id]
+									if o == nil {
+										o = info.Uses[id]
+									}
+									if o != nil {
+										alias[o] = tgt
+									}
+								}
+							}
 							if tgt := envFieldTarget(info, r); tgt != "" {
 								if _, isSel := r.(*ast.SelectorExpr); isSel {
 									o := info.Defs[id]
@@ -138,6 +150,37 @@ func rulePU4() Rule {
 						}
 						return true
 					})
+					// copies of an alias are aliases (a = args)
+					for round := 0; round < 3; round++ {
+						f.OwnNodes(func(x ast.Node) bool {
+							as, ok := x.(*ast.AssignStmt)
+							if !ok || len(as.Lhs) != len(as.Rhs) {
+								return true
+							}
+							for i, l := range as.Lhs {
+								id, ok := l.(*ast.Ident)
+								if !ok {
+									continue
+								}
+								r := ast.Unparen(as.Rhs[i])
+								if se, ok := r.(*ast.SliceExpr); ok {
+									r = ast.Unparen(se.X)
+								}
+								if rid, ok := r.(*ast.Ident); ok {
+									if tgt := alias[info.Uses[rid]]; tgt != "" {
+										o := info.Defs[id]
+										if o == nil {
+											o = info.Uses[id]
+										}
+										if o != nil && alias[o] == "" {
+											alias[o] = tgt
+										}
+									}
+								}
+							}
+							return true
+						})
+					}
 					aliasTarget := func(e ast.Expr) string {
 						if ix, ok := ast.Unparen(e).(*ast.IndexExpr); ok {
 							if id, ok := ast.Unparen(ix.X).(*ast.Ident); ok {
@@ -674,4 +717,52 @@ func rulePU10() Rule {
 				rr.Unk(f, f.Name+"|read of vars", f.Pos(), "Get does not read ExecEnv.vars: idiom not recognised")
 			}
 		}}
+}
+
+// returnsEnvField recognises a call of a function of package interp every
+// return of which hands back a slice field of the environment (or a slice of
+// it) without copying: `func (env *ExecEnv) posParams() []string { return
+// env.Args[1:] }`.  It returns the field's name.
+func (c *Ctx) returnsEnvField(info *types.Info, call *ast.CallExpr) string {
+	fo := core.StaticCallee(info, call)
+	if fo == nil {
+		return ""
+	}
+	h := c.P.FuncOf(fo)
+	if h == nil || h.Pkg.Name != "interp" || h.Body == nil || h.Type.Results == nil || h.Type.Results.NumFields() != 1 {
+		return ""
+	}
+	hi := h.Info()
+	tgt := ""
+	all := true
+	nret := 0
+	h.OwnNodes(func(n ast.Node) bool {
+		ret, ok := n.(*ast.ReturnStmt)
+		if !ok || len(ret.Results) != 1 {
+			return true
+		}
+		nret++
+		r := ast.Unparen(ret.Results[0])
+		if se, ok := r.(*ast.SliceExpr); ok {
+			r = ast.Unparen(se.X)
+		}
+		if _, isSel := r.(*ast.SelectorExpr); !isSel {
+			if !isNilIdent(hi, r) {
+				all = false
+			}
+			return true
+		}
+		if t := envFieldTarget(hi, r); t != "" {
+			if _, isSlice := hi.Types[ret.Results[0]].Type.Underlying().(*types.Slice); isSlice {
+				tgt = t
+				return true
+			}
+		}
+		all = false
+		return true
+	})
+	if nret == 0 || !all {
+		return ""
+	}
+	return tgt
 }
